@@ -66,3 +66,18 @@ package websvc
 //@   modifies allmaps(http.Header), proxied
 //@   ensures  local-answer-otherwise: !proxyAllowed(old(r.Method), old(r.URL.Path)) ==> proxied == old(proxied)
 //@   ensures  at-most-once: proxied <= old(proxied) + 1
+
+// The reverse proxy removes the headers that the client lists in its
+// Connection header from the outgoing request before it calls the Rewrite
+// function; what the backend receives is the outgoing request after Rewrite.
+// So the two headers the handler sets must be restored from the incoming
+// request there.
+//@ import httputil net/http/httputil
+//@ func linkedIPHandler$1
+//@   property C19
+//@   requires r != nil && r.In != nil && r.Out != nil && r.In.Header != nil && r.Out.Header != nil && r.In.Header != r.Out.Header && apiURL != nil
+//@   modifies http.Request.URL, http.Request.Host, mapof(r.Out.Header)
+//@   ensures peer-address-survives-hop-by-hop-removal: has(r.Out.Header, "X-Connecting-Ip") == has(r.In.Header, "X-Connecting-Ip") &&
+//@             r.Out.Header["X-Connecting-Ip"] == r.In.Header["X-Connecting-Ip"]
+//@   ensures request-id-survives-hop-by-hop-removal: has(r.Out.Header, "X-Request-Id") == has(r.In.Header, "X-Request-Id") &&
+//@             r.Out.Header["X-Request-Id"] == r.In.Header["X-Request-Id"]
